@@ -255,6 +255,35 @@ HEADER_FORMS = [
 ]
 
 
+ATOM_FORMS = ['C9 1 10.25 0.5 0.3 11.0 0.04', 'C9 1 -10.25 0.5 0.3 11.0 0.04', 'C9 1 0.2 9.75 0.3 11.0 0.04', 'C9 1 0.2 0.5 19.75 11.0 0.04', 'C9 1 20.5 0.5 -20.25 21.0 0.04',
+              'C9 1 9.5 10.5 0.25 10.5 0.04', 'C9 1 0.2 0.5 0.3', 'C9 1 0.2 0.5 0.3 11.0', 'C9 1 0.2 0.5 0.3 -21.0 -1.2', 'C9 1 -0.99999 1.99999 0.00001 11.0 10.05',
+              'C9 1 0.2 0.5 0.3 11.0 0.02 0.03 0.04 0.001 -0.002 0.003', 'c9 1 0.2 0.5 0.3 11.0 0.04']
+
+
+def atom_forms(ctx):
+    """atom lines in the forms of the manual (fixed and free-variable coordinate codes, also below a multiple of ten; 5 to 12 columns): recognised in every mode"""
+    ev = 0
+    for form in ATOM_FORMS:
+        lines = HEAD + ATOMS[:2] + [form] + ATOMS[2:] + TAIL
+        text = '\n'.join(lines) + '\n'
+        models = []
+        for mode in MODES:
+            status, inner, shx = im.read_text(text, mode)
+            ev += 1
+            case = {'instruction': form, 'mode': mode, 'text': text}
+            if status != 'ok' or inner:
+                common.add_violation(ctx, 'a valid atom line raises', case, 'no exception', status + ' / ' + str(inner))
+                continue
+            names = [a.name.upper() for a in shx.atoms.all_atoms]
+            if names != ['C1', 'O1', 'C9', 'N1', 'C2'] or shx.error_line_num != len(lines) - 1 or not shx.end:
+                common.add_violation(ctx, 'a valid atom line is not recognised as an atom (or the parse does not go on behind it)', case, ['C1', 'O1', 'C9', 'N1', 'C2'], names)
+                continue
+            models.append((im.atoms_table(shx), im.instr_tokens(shx)))
+        if len(models) == 3 and not (models[0] == models[1] == models[2]):
+            common.add_violation(ctx, 'the model differs between quiet, verbose and debug mode', {'instruction': form, 'text': text}, 'identical', 'different')
+    return ev
+
+
 def header_forms(ctx):
     """instructions that belong between SFAC and UNIT (one to three DISP lines), in all three modes"""
     ev = 0
@@ -388,7 +417,7 @@ def run(ctx):
     else:
         ctx.discharged += 1
     ng, nacc = run_grid(ctx)
-    n1 = covering(ctx) + footers(ctx) + context_forms(ctx) + continuations(ctx) + header_forms(ctx)
+    n1 = covering(ctx) + footers(ctx) + context_forms(ctx) + continuations(ctx) + header_forms(ctx) + atom_forms(ctx)
     n2 = random_files(ctx, 3000 if ctx.thorough() else 40)
     n3 = malformed(ctx, 150000 if ctx.thorough() else 1500) + malformed_tokens(ctx, 60000 if ctx.thorough() else 1500)
     ctx.cov['evaluations'] = ng + n1 + n2 + n3
